@@ -21,7 +21,7 @@ for d in sorted(glob.glob(os.path.join(HERE, 'seeded', '*'))):
             checks.append(c)
     # the latest record counts most: try the last-named check first
     checks.reverse()
-    jobs.append((name, d, checks, 'NOT CAUGHT' in det or 'still not caught' in det.lower()))
+    jobs.append((name, d, checks, 'not caught' in det.lower() or 'out of reach' in det.lower()))
 import queue
 free = queue.Queue()
 for i in range(slots):
